@@ -1,3 +1,4 @@
+from numbers import Number
 from dataclasses import dataclass, field
 from functools import cached_property, partial, partialmethod
 import re
@@ -70,6 +71,11 @@ class TapeRecorder:
 
     def binary_operator(self, other, operator: str):
         if not isinstance(other, self.__class__):
+            if not isinstance(other, Number):
+                # The operand is written into the source as text, which is exact for numbers only:
+                # a MultiVector prints its coefficients rounded, an array prints as a list.
+                raise TypeError(f'Only numbers and arguments of the function can be used in a registered function, '
+                                f'not {type(other).__name__}.')
             # Assume scalar
             keys_out, func = getattr(self.algebra, operator)[self.keys(), (0,)]
             expr = f'{func.__name__}({self.expr}, ({other},))'
